@@ -232,7 +232,7 @@ def run_case(case):
         b = build(desc)
         sim = b.sys.getSimulator()
         pairs = cone_pairs(desc)
-        prev = {k: 0 for k, nd in enumerate(desc['nodes']) if is_state(nd)}
+        prev = netgen.reg_init(desc)
         for t, vec in enumerate(seq):
             for w_, v in zip(b.inputs, vec):
                 w_.put(v)
